@@ -1,5 +1,6 @@
 """C13 — Cancelling a task affects only that task (structural clauses)."""
 from rules.common import start
+from rules import wave2
 from rules import pool, coro
 
 
@@ -16,4 +17,7 @@ def run(tier):
     pool.cancel_dispatch_rule(run, f, "C13-DISPATCH")
     pool.identity_rule(run, f, "C13-IDENTITY")
     coro.drain_rule(run, f, "C13-DRAIN")
+    # clauses added for the wave-2 seeds (rules/wave2.py; DESIGN 12a)
+    wave2.running_coroutine_record_rule(run, f, "C13-RUNNING-RECORD")
+    wave2.request_pairing_rule(run, f, "C13-REQUEST-PAIRING")
     return run.finish()
